@@ -341,6 +341,18 @@ func Run(c Case) int {
 			defer clients.Done()
 			ctx, cancel := context.WithTimeout(context.Background(), 20*time.Second)
 			defer cancel()
+			if outcome == "stall" {
+				// says hello and then never answers: only the server can end this handshake
+				_ = t.Send(ctx, &lime.Session{State: lime.SessionStateNew})
+				select {
+				case <-stop:
+				case <-time.After(18 * time.Second):
+				}
+				if t.Connected() {
+					t.Close()
+				}
+				return
+			}
 			if outcome == "err" {
 				m := &lime.Message{}
 				m.SetContent(lime.TextDocument("not a session"))
@@ -503,9 +515,13 @@ func Run(c Case) int {
 			case <-lasDone:
 			case <-time.After(300 * time.Millisecond):
 			}
-			close(stop)
+			// with the clients still connected: whatever served them must be gone by itself
 			left := 0
-			dl := time.Now().Add(7 * time.Second)
+			bound := 1500 * time.Millisecond
+			if c.Cfg.Transport == "tcp" {
+				bound = 7 * time.Second
+			}
+			dl := time.Now().Add(bound)
 			for {
 				select {
 				case a := <-r.arrivals:
@@ -520,6 +536,7 @@ func Run(c Case) int {
 				time.Sleep(5 * time.Millisecond)
 			}
 			r.log(Event{K: "end", Res: "quiet", N: left})
+			close(stop)
 		}
 	}
 	return 0
